@@ -177,6 +177,18 @@ def run(ctx):
                   f"repositories select every file in the distdir", node=st)
     ctx.floor("R6", 2)
 
+    # ---- R7 a file filter given on the command line is applied whatever its value (0 is a limit, not "absent") --------------
+    sfo = P.func(MOD, "_setup_file_opts")
+    for opt in ("modified", "size"):
+        gs = [n for n in A.body_walk(sfo.node) if isinstance(n, ast.If) and any(isinstance(x, ast.Attribute) and x.attr == opt for x in ast.walk(n.test))]
+        ctx.check("R7", sfo, bool(gs), f"filter-guard-present:{opt}", f"the --{opt} filter is registered under a test on the option")
+        for n in gs:
+            ident = any(isinstance(c, ast.Compare) and isinstance(c.left, ast.Attribute) and c.left.attr == opt and isinstance(c.ops[0], (ast.IsNot, ast.Is)) and A.is_const(c.comparators[0], None) for c in ast.walk(n.test))
+            ctx.check("R7", sfo, ident, f"filter-guard-identity:{opt}", f"--{opt} counts as given unless it is None",
+                      f"the --{opt} filter is registered only when `{A.unparse(n.test)[:50]}` is truthy: a zero limit (`-s 0B`) parses to 0, the filter is dropped, and every selected distfile is "
+                      f"deleted although none passes the filter", node=n)
+    ctx.floor("R7", 4)
+
 
 F = "src/pkgcore/scripts/pclean.py"
 MUTANTS = [
